@@ -820,10 +820,23 @@ pub fn c07(a: &Analysis<'_>, out: &mut Vec<Violation>) {
 // C08 — fail-fast
 
 pub fn c08(a: &Analysis<'_>, out: &mut Vec<Violation>) {
-    if !a.plan.cfg.fail_fast() || !a.complete() {
+    if !a.plan.cfg.fail_fast() {
         return;
     }
     let evs = &a.h.events;
+    // "every attempt already started still runs to its Finished ... and the run ends with run-Finished": a run
+    // that hangs once fail-fast has tripped (termination in general is C04's) breaks exactly this clause
+    if !a.complete() {
+        let tripped = a.first_final_failure.is_some() || evs.iter().any(|e| matches!(e.k, K::ParseError(_)));
+        if tripped && matches!(a.h.end, crate::core::RunEnd::Deadlock | crate::core::RunEnd::Livelock | crate::core::RunEnd::PollCap | crate::core::RunEnd::IdleSpin) {
+            let open = a.attempts.iter().filter(|t| t.started.is_some() && t.finished.is_none()).count();
+            out.push(
+                v("C08", "run-not-finished-after-trip", format!("fail-fast has tripped and the run never ended ({:?}): {open} started attempt(s) without Finished, no run-Finished", a.h.end))
+                    .attr("end", format!("{:?}", a.h.end)),
+            );
+        }
+        return;
+    }
     let limit = a.plan.cfg.limit();
     if let Some(p) = a.first_final_failure {
         let late: Vec<usize> = evs.iter().enumerate().skip(p + 1).filter(|(_, e)| matches!(e.k, K::ScStarted)).map(|(i, _)| i).collect();
